@@ -475,6 +475,19 @@ class Evaluator:
         raise Unsupported('binary operator %s' % type(op).__name__)
 
     def binop_hook(self, op, a, b, st, node):
+        # 1-D numpy int arrays: elementwise arithmetic with an int scalar (A-NOOVF: no wrap-around)
+        if isinstance(a, VList) and a.nd and isinstance(b, VInt) and isinstance(op, (ast.Add, ast.Sub)):
+            cell = st.heap.lists[a.ref]
+            if cell.etype != 'int':
+                return None
+            res, n = st.heap.fresh_list('int', 'ew')
+            res = VList(res.ref, nd=True)
+            st.assume(n == cell.length)
+            k = z3.Int(fresh_name('k'))
+            ra = st.heap.lists[res.ref].leaves[0]
+            body = (cell.leaves[0][k] + b.t) if isinstance(op, ast.Add) else (cell.leaves[0][k] - b.t)
+            st.assume(z3.ForAll([k], z3.Implies(z3.And(k >= 0, k < cell.length), ra[k] == body)))
+            return res
         return None
 
     def ev_Compare(self, node, st):
